@@ -325,6 +325,19 @@ func httpClass(code int) string {
 
 // expect computes the oracle's expectation for the document when it is
 // delivered with HTTP status 207.
+// decodes: the method reads property id of resources of this kind.
+func decodes(m *minfo, kind, id string) bool {
+	need, opt := m.propsFor(kind)
+	for _, l := range [][]string{need, opt} {
+		for _, x := range l {
+			if x == id {
+				return true
+			}
+		}
+	}
+	return false
+}
+
 func (d *docSpec) expect() (exp Expect, class, dkey string) {
 	m := d.M
 	var sbKey strings.Builder
@@ -380,6 +393,15 @@ func (d *docSpec) expect() (exp Expect, class, dkey string) {
 					}
 					if m.Single == p.ID {
 						mustErr = "property under " + failClass(p.Code) + " propstat"
+					} else if p.Code != 404 && m.Single == "" && m.Kind != "sync" && o.Listed && decodes(m, r.Kind, p.ID) {
+						// "a property reported with a non-success status is
+						// surfaced as an error": 404 says the resource lacks
+						// an optional property (tolerated); any other failing
+						// code on a property the method decodes is a failure
+						// of the call. (Resources the method does not list -
+						// other members of the collection - are skipped
+						// before their properties are looked at.)
+						mustErr = "decoded property under " + failClass(p.Code) + " propstat"
 					}
 				}
 			}
